@@ -16,6 +16,16 @@ E2T = "Kani / CBMC bounded model checking of the compiled code over kani::any() 
 TB = ("trusted base: bls12_381 is a prime-order bilinear group with canonical injective encodings (modelled exactly by discrete logs), "
       "sha3 is an ideal hash, z3's verdicts (unknown/timeouts are inconclusive); bounds as listed in the evidence")
 
+reg("C01", ["E1"], E1T,
+    "Bounded model checking of merchant::Config::initialize on a fully symbolic EstablishProof: every verifier path with <= d failing comparisons is executed; "
+    "accept => each conjunct of the reference relation and reject => not(reference) are SMT validity queries; special soundness (two transcripts, rewound oracle) yields every slot relation on the extracted witness; "
+    "every non-response atom must be bound by the challenge; the returned blind signatures are shown to be on exactly the proven commitments and to unblind only to signatures on the committed message.",
+    TB + "; Pedersen binding / PS unforgeability are not posed (computational)", "DESIGN.md section 4, C01")
+reg("C02", ["E1"], E1T,
+    "Bounded model checking of merchant::Config::allow_payment on a fully symbolic PayProof (20 sub-proofs, ~70 comparison sites): accept-set against a 34-conjunct reference relation, "
+    "special soundness goals (old state opened, nonce, channel id, close tag, lock linkage, balance update by exactly the amount, range link, pay token is a PS signature on the extracted old state), "
+    "integer obligation on the verifier's own digit weights, and binding of every non-response atom / statement component.",
+    TB + "; digit signatures exist only for 0..127 and PS unforgeability are assumptions", "DESIGN.md section 4, C02")
 reg("C09", ["E1"], E1T,
     "Bounded model checking: every path of Commitment::{new,verify_opening}, Message::commit, the key->parameter conversions and PedersenParameters::new "
     "is executed symbolically for N in {1,2,3,5}(+8,13) in G1 and G2; exact-map, accept<=>equality, uniqueness and additivity are SMT validity queries over all scalars.",
